@@ -14,7 +14,7 @@ RULE = ("Hypothesis-generated training lists through the real trainer (one case 
         "(constructed as password_scorer.py does) scores candidates: all training passwords, a sample of guesser output, case / "
         "digit / symbol perturbations of both, generated unrelated strings, e-mail and website strings. Oracle: score p > 0 => the "
         "string is in the map with some probability q, |p-q| <= 1e-9*q; a string in which the e-mail/website detectors find "
-        "something has category e/w and p == 0; scoring the same string again after others returns the identical tuple; password_scorer.py run as a subprocess must write exactly the library's tuples. "
+        "something has category e/w and p == 0; scoring the same string again after others, and on a second scorer asked in reverse order, returns the identical tuple (half of the lists carry a block of same-length words with counts 1..8 plus multi-words of the frequent ones, without which the scorer's multi-word detector stays empty); password_scorer.py run as a subprocess must write exactly the library's tuples. "
         "Non-trivial = p > 0 for a string that is not a training password, or a candidate whose mask/length/structure is absent "
         "from the ruleset (p == 0 although segments exist); distinct = hash of (list, options, candidate).")
 ASSUMPTIONS = ["languages above 40000 guesses are skipped and counted", "a run in which the trainer does not complete is skipped and counted"]
@@ -159,6 +159,15 @@ def prop(case, rec):
         again = guard(case, sc.parse, s)
         if again != first[s]:
             raise Violation('impure', f'string {s!r}: first scored {first[s]}, after scoring other strings {again}', dict(case, extra=[s]))
+    # ... and not on what the scorer object was asked before: a second scorer over the same ruleset, asked in reverse order
+    sc2 = build_scorer(out, case)
+    if sc2.multiword_detector.lookup:
+        rec.cls('scorer_knows_multiwords')
+    for s in reversed(cands):
+        res2 = guard(case, sc2.parse, s)
+        if res2 != first[s]:
+            raise Violation('impure', f'string {s!r}: scored {first[s]} by a scorer asked in one order and {res2} by a scorer (same ruleset) '
+                            f'asked in the reverse order', dict(case, extra=[s]))
 
 
 @st.composite
@@ -177,6 +186,34 @@ def cases(draw):
     entries += [e for e in base if e[0] not in seen]
     extra = [draw(pwgen.password(max_frags=2)) for _ in range(draw(st.integers(0, 6)))]
     drop = draw(st.lists(st.integers(0, 11), min_size=1, max_size=3)) if draw(st.integers(0, 3)) == 0 else []
+    if draw(st.booleans()):
+        # a block that makes the SCORER's multi-word detector non-empty: it only learns words above the five rarest probability
+        # classes of their length, so eight words of one length with counts 1..8 are trained, plus multi-words built from the
+        # frequent ones; candidates are the multi-words, their tails / heads at word boundaries and recombinations
+        L = draw(st.sampled_from([4, 4, 5]))
+        pool = {4: ['cats', 'dogs', 'bird', 'fish', 'moon', 'star', 'blue', 'king', 'rock', 'wolf'],
+                5: ['chair', 'table', 'house', 'tiger', 'green', 'water', 'stone', 'eagle', 'piano']}[L]
+        words = draw(st.lists(st.sampled_from(pool), min_size=8, max_size=8, unique=True))
+        tail = draw(st.sampled_from(['', '5828', '!', '12']))
+        have = {e[0] for e in entries}
+        for i, w in enumerate(words):
+            if w in have:
+                entries = [e for e in entries if e[0] != w]
+            entries.append([w, i + 1])
+        top = words[4:]            # counts 5..8: the trainer (threshold 5) may split multi-words made of these
+        mws = []
+        for _ in range(draw(st.integers(1, 3))):
+            k = draw(st.integers(2, 4))
+            parts = [draw(st.sampled_from(top)) for _ in range(k)]
+            mw = ''.join(parts) + tail
+            if len(mw) <= 24 and mw not in {e[0] for e in entries}:
+                entries.append([mw, draw(st.sampled_from([1, 2, 5]))])
+                mws.append(parts)
+        for parts in mws:
+            for i in range(1, len(parts)):
+                extra += [''.join(parts[i:]) + tail, ''.join(parts[:i]) + tail, draw(st.sampled_from(words)) + ''.join(parts[i:]) + tail,
+                          ''.join(x.capitalize() for x in parts[i:]) + tail]
+            extra += [''.join(parts) + tail, ''.join(reversed(parts)) + tail, ''.join(x.capitalize() for x in parts) + tail]
     return {'entries': entries, 'encoding': enc, 'coverage': draw(st.sampled_from([0.6, 0.3, 1])), 'ngram': draw(st.sampled_from([2, 3, 4])),
             'extra': [e for e in extra if valid_password(e)], 'drop_structs': drop}
 
